@@ -1315,7 +1315,9 @@ fn concurrent_main(args: &[String]) {
     let wmin: u64 = arg(args, "--wmin").and_then(|x| x.parse().ok()).unwrap_or(2);
     let wmax: u64 = arg(args, "--wmax").and_then(|x| x.parse().ok()).unwrap_or(8);
     let mode = arg(args, "--mode").unwrap_or_else(|| "mixed".to_string());
-    let mut o = std::io::BufWriter::new(std::fs::File::create(out).unwrap());
+    let mut o = std::io::BufWriter::new(std::fs::File::create(&out).unwrap());
+    // runs that are not audited (an undo returned an error), with the error texts
+    let mut oi = std::io::BufWriter::new(std::fs::File::create(format!("{out}.inconclusive")).unwrap());
     let sm = SM::new("ascii");
     let mut stats: HashMap<String, u64> = HashMap::new();
     let mut rng = seed0;
@@ -1427,6 +1429,13 @@ fn concurrent_main(args: &[String]) {
         *stats.entry(format!("runs_with_{w}_handles")).or_insert(0) += 1;
         if inconclusive {
             *stats.entry("inconclusive_runs".into()).or_insert(0) += 1;
+            let errs: Vec<Value> = events
+                .iter()
+                .filter(|e| e["a"] == json!("undo") && e["ok"] != json!(true))
+                .map(|e| e["err"].clone())
+                .collect();
+            writeln!(oi, "{}", json!({"a":"Inconclusive","id":run,"workers":w,"mode":mode,"seed":seed,
+                                      "undo_errors":errs,"events":events})).unwrap();
         } else {
             writeln!(o, "{}", json!({"a":"Reset","id":run,"workers":w,"mode":mode,"seed":seed})).unwrap();
             // (the snapshots are listed separately; the event log keeps the rest)
